@@ -44,27 +44,6 @@ def emit_item(it, ctx, meta, modpath, emit_items, weave_fn, filter_attrs, strip_
             ient["used"] = True
             body = text_of(it.body)   # type-invariant carrying type: fields stay private (R8 exception)
             txt = _pub(text_of(it.header), it, ctx) + "{" + body + "}"
-            # R18: derive(Clone) -> explicit field-wise clone (what derive expands to), external_body with `r == *self`
-            new_attrs = []
-            had_clone = False
-            for a in attrs:
-                m = re.match(r"#\[derive\((.*)\)\]", a)
-                if m:
-                    parts = [x.strip() for x in m.group(1).split(",")]
-                    if "Clone" in parts:
-                        had_clone = True
-                        parts = [x for x in parts if x != "Clone"]
-                    a = "#[derive(%s)]" % ", ".join(parts) if parts else ""
-                if a:
-                    new_attrs.append(a)
-            attrs = new_attrs
-            if had_clone:
-                mh = re.search(r"struct\s+(\w+)\s*(<[^>{]*>)?", text_of(it.header))
-                gen = mh.group(2) or ""
-                fields = re.findall(r"(\w+)\s*:", body)
-                ctor = ", ".join("%s: self.%s.clone()" % (f, f) for f in fields)
-                txt += "\nimpl%s Clone for %s%s {\n    #[verifier::external_body]\n    fn clone(&self) -> (r: Self)\n        ensures r == *self,\n    { %s { %s } }\n}" % (gen, mh.group(1), gen, mh.group(1), ctor)
-                ctx.log.append({"rule": "R18", "file": ctx.cur_file, "line": it.line, "what": "derive(Clone) of %s replaced by explicit field-wise clone (external_body, r == *self)" % it.name})
         elif it.body is not None:
             body = pub_fields(it.body)
             txt = _pub(text_of(it.header), it, ctx) + "{" + body + "}"
@@ -317,6 +296,71 @@ def flatten_fci(items, ctx, modpath):
     return out
 
 
+def expand_derive_clone(items, ctx, modpath):
+    """R18: for the parsed types that carry a type invariant (`@item X private`), `Clone` is removed from the derive list
+    and the impl that the derive macro expands to (every field `.clone()`d) is emitted as an ordinary item, so it gets a
+    function key (`mod::T::Clone::clone`), a contract (`r == *self`) and obligations."""
+    out = []
+    for it in items:
+        out.append(it)
+        if it.kind != "struct" or it.body is None:
+            continue
+        ient = ctx.ov.items.get(modpath + "::" + str(it.name))
+        if not (ient and ient.get("private")):
+            continue
+        hit = None
+        for ai, a in enumerate(it.attrs):
+            m = re.match(r"#\s*\[\s*derive\s*\((.*)\)\s*\]\s*$", text_of(a), re.S)
+            if m and "Clone" in [x.strip() for x in m.group(1).split(",")]:
+                hit = (ai, [x.strip() for x in m.group(1).split(",") if x.strip()])
+        if hit is None:
+            continue
+        ai, parts = hit
+        keep = [x for x in parts if x != "Clone"]
+        line = it.line
+        if keep:
+            it.attrs[ai] = [t for t in lex("#[derive(%s)]" % ", ".join(keep)) if t.kind != "ws"]
+            for t in it.attrs[ai]:
+                t.line = line
+        else:
+            del it.attrs[ai]
+        mh = re.search(r"struct\s+(\w+)\s*(<[^>{]*>)?", text_of(it.header))
+        gen = mh.group(2) or ""
+        fields = _struct_fields(it)
+        ctor = ", ".join("%s: self.%s.clone()" % (f, f) for f in fields)
+        src = "impl%s Clone for %s%s {\n    fn clone(&self) -> Self {\n        %s { %s }\n    }\n}\n" % (gen, mh.group(1), gen, mh.group(1), ctor)
+        toks = strip_noise(lex(src))
+        for t in toks:
+            t.line = line
+        new = parse_items(toks)
+        for n_ in new:
+            n_.line = line
+            for c in (n_.children or []):
+                c.line = line
+        out += new
+        ctx.log.append({"rule": "R18", "file": ctx.cur_file, "line": line,
+                        "what": "derive(Clone) of %s expanded to the explicit field-wise impl (%s)" % (it.name, ", ".join(fields))})
+    return out
+
+
+def _struct_fields(it):
+    fields = []
+    depth = 0
+    b = sig(it.body)
+    for i, t in enumerate(b):
+        if t.text in ("<", "(", "[", "{"):
+            depth += 1
+        elif t.text in (">", ")", "]", "}"):
+            depth -= 1
+        elif t.text == ">>":
+            depth -= 2
+        elif t.text == "<<":
+            depth += 2
+        elif depth == 0 and t.kind == "ident" and i + 1 < len(b) and b[i + 1].text == ":" and (i == 0 or b[i - 1].text in (",", "pub", ")")):
+            fields.append(t.text)
+    return fields
+
+
 def expand_derive_default(items, ctx):
     """R23: `#[derive(.., Default, ..)] struct T<..> { f: X, .. }` -> the derive entry is removed and the impl that the
     derive macro expands to (Rust reference, derive(Default) on structs: every field is `Default::default()`) is emitted
@@ -350,21 +394,7 @@ def expand_derive_default(items, ctx):
         if not mh:
             _err("unsupported: derive(Default) struct header %s" % it.name)
         gen = mh.group(2) or ""
-        # field names: identifiers followed by ':' at depth 0 of the body
-        fields = []
-        depth = 0
-        b = sig(it.body)
-        for i, t in enumerate(b):
-            if t.text in ("<", "(", "[", "{"):
-                depth += 1
-            elif t.text in (">", ")", "]", "}"):
-                depth -= 1
-            elif t.text == ">>":
-                depth -= 2
-            elif t.text == "<<":
-                depth += 2
-            elif depth == 0 and t.kind == "ident" and i + 1 < len(b) and b[i + 1].text == ":" and (i == 0 or b[i - 1].text in (",", "pub", ")")):
-                fields.append(t.text)
+        fields = _struct_fields(it)
         ctor = ", ".join("%s: Default::default()" % f for f in fields)
         src = "impl%s Default for %s%s {\n    fn default() -> Self {\n        %s { %s }\n    }\n}\n" % (gen, mh.group(1), gen, mh.group(1), ctor)
         toks = strip_noise(lex(src))
